@@ -65,6 +65,9 @@ class Ctx(object):
     self.handshake = None
     self.user_state_seen = []
     self.on_update = None   # harness hook called after a body changed something observable
+    self.mon_serials = {}   # id(monitor thread) -> serial
+    self.mon_keep = []      # (keeps the thread objects alive so that ids are not reused)
+    self.mon_count = 0
 
   def ev(self, kind, *args):
     return self.sim.event(self.tag + kind, *args)
@@ -91,12 +94,32 @@ def make_body(ctx, spec):
   return body
 
 
+def make_monitor(ctx, name):
+  """The function a monitor thread polls: the value identifies the monitor thread."""
+
+  def monitor(test):
+    me = threading.current_thread()
+    serial = ctx.mon_serials.get(id(me))
+    if serial is None:
+      ctx.mon_count += 1
+      serial = ctx.mon_serials[id(me)] = ctx.mon_count
+      ctx.mon_keep.append(me)
+    ctx.ev('monitor_sample', name, serial)
+    return serial
+
+  monitor.__name__ = 'monitor_' + name
+  return monitor
+
+
 def run_body(ctx, name, test, plugs):
   spec = ctx.specs[name]
   inv = ctx.inv[name] = ctx.inv.get(name, 0) + 1
   beh = _beh(spec, inv)
   ctx.ev('body_start', name, inv)
   try:
+    if spec.get('monitor'):
+      # give the monitor thread its first sample (time does not advance while it is runnable)
+      core.sim_sleep(0.001)
     if plugs or spec['plugs']:
       ctx.ev('plug_args', name, tuple((a, type(plugs[a]).__name__, getattr(plugs[a], 'serial', -1))
                                       for a in sorted(plugs)))
